@@ -16,7 +16,8 @@ from props.c10 import run_generate, snapshot
 
 def gen_desc(rng):
     """One CAN-bound struct around the 64-bit limit; the excess / the variable-size field sits anywhere."""
-    desc = {"enums": [{"name": "E", "vals": [("A", 0), ("B", rng.choice([1, 3, 200]))]}], "structs": [], "impls": []}
+    desc = {"enums": [{"name": "E", "vals": [("A", 0), ("B", rng.choice([1, 3, 200]))]},
+                      {"name": "E5", "vals": [("A", 0), ("B", rng.choice([4, 5, 7]))]}], "structs": [], "impls": []}
     target = rng.choice([57, 60, 63, 64, 65, 66, 72, 80, 100, 128, 200, rng.randint(57, 200)])
     inner_fields = [{"name": "x", "id": 0, "type": ("u", rng.randint(1, 16))}, {"name": "y", "id": 1, "type": ("i", rng.randint(1, 16))}]
     desc["structs"].append({"name": "In", "fields": inner_fields})
@@ -36,6 +37,10 @@ def gen_desc(rng):
             t, w = ("f32",), 32
         elif r < 0.42 and left >= 64:
             t, w = ("f64",), 64
+        elif r < 0.55 and left >= 8:
+            t, w = ("enum", "E"), (1 if desc["enums"][0]["vals"][1][1] == 1 else (2 if desc["enums"][0]["vals"][1][1] == 3 else 8))
+        elif r < 0.6 and left >= 4:
+            t, w = ("enum", "E5"), 4
         else:
             w = rng.randint(1, min(64, left))
             t = (rng.choice(["u", "i"]), w)
